@@ -82,27 +82,46 @@ class GzipDecompressor(SimpleGzipDecompressor):
 class DeflateDecompressor(SimpleGzipDecompressor):
     '''zlib decompressor with raw deflate detection.
 
-    This class doesn't do any special. It only tries regular zlib and then
-    tries raw deflate on the first decompress.
+    This class checks whether the stream starts with a valid 2 byte zlib
+    header. If it does not, the stream is decoded as raw deflate. The header
+    may arrive in pieces, so the decision is made once 2 bytes are available
+    and is the same however the stream is split.
     '''
     def __init__(self):
         super().__init__()
         self.decompressobj = None
+        self._header = b''
+
+    @classmethod
+    def is_zlib_header(cls, data):
+        '''Return whether the first 2 bytes are a zlib (RFC 1950) header.'''
+        cmf, flg = data[0], data[1]
+
+        return cmf & 0x0f == 8 and cmf >> 4 <= 7 \
+            and (cmf * 256 + flg) % 31 == 0 and not flg & 0x20
 
     def decompress(self, value):
         if not self.decompressobj:
-            try:
+            self._header += value
+
+            if len(self._header) < 2:
+                return b''
+
+            value = self._header
+            self._header = b''
+
+            if self.is_zlib_header(value):
                 self.decompressobj = zlib.decompressobj()
-                return self.decompressobj.decompress(value)
-            except zlib.error:
+            else:
                 self.decompressobj = zlib.decompressobj(-zlib.MAX_WBITS)
-                return self.decompressobj.decompress(value)
 
         return self.decompressobj.decompress(value)
 
     def flush(self):
         if self.decompressobj:
             return super().flush()
+        elif self._header:
+            raise zlib.error('Compressed stream is incomplete or truncated.')
         else:
             return b''
 
